@@ -141,13 +141,20 @@ __CPROVER_requires(num_threads >= 1 && num_threads <= W_MAX && n >= 1 && (uint64
 __CPROVER_ensures(__CPROVER_return_value >= 1)
 __CPROVER_assigns()
 ;
-static void init_queue(struct bulk_receiver *r, size_t w, uint32_t num_chunks)
+/* tasks_remaining is the number of finish() calls that will be made: every worker's share ends in exactly one (bulk.do_work_task:
+ * one spawned task or one direct finish; bulk.task_entry / bulk.do_work_local: one finish each) */
+static void tasks_remaining_store(struct op_state_t *op, size_t v)
+{
+  VX_ASSERT(v == op->num_worker_threads, "tasks_remaining == number of finish() calls that will be made (one per worker: bulk.do_work_task / bulk.task_entry)");
+}
+static bool init_queue(struct bulk_receiver *r, size_t w, uint32_t num_chunks)
 {
   VX_ASSERT(g_tasks == 0 && g_local == 0, "all queues are initialised before any worker task is started");
   VX_ASSERT(g_emplaced, "the predecessor's values are stored before the queues are published");
   VX_ASSERT(w < vx_op->num_worker_threads, "init_queue for an existing worker");
   if (g_inits == 0) g_arg_nc = num_chunks; else VX_ASSERT(num_chunks == g_arg_nc, "same num_chunks for every queue");
   g_inits++; if (w == g_vw) g_vw_init++;
+  return nondet_bool();   /* the pinned init_queue returns nothing; a result, if one is introduced, is not relied upon */
 }
 static void do_work_task(struct bulk_receiver *r, Shape n, chunk_t cs, size_t w)
 {
